@@ -6,7 +6,7 @@ export GOFLAGS=-mod=mod GOPROXY=off GOSUMDB=off GOTOOLCHAIN=local GOWORK=off
 d=$(mktemp -d /tmp/archeref-XXXXXX); trap 'rm -rf "$d"' EXIT
 rsync -a --exclude .git /repo/ "$d/"
 (cd "$d" && patch -p1 -s < "$patch") || { echo "PATCH DOES NOT APPLY"; exit 3; }
-props=$(python3 -c "import json; print(' '.join(c['property_id'] for c in json.load(open('/verif/MANIFEST.json'))['checks']))")
+props=${PROPS:-$(python3 -c "import json; print(' '.join(c['property_id'] for c in json.load(open('/verif/MANIFEST.json'))['checks']))")}
 alarms=0
 for p in $props; do
   o=$(ARCHE_REPO="$d" /verif/bin/archecheck -property "$p" -tier quick -no-evidence 2>&1); rc=$?
